@@ -665,6 +665,28 @@ pub fn sibling_of(z: &RefZone, rng: &mut Rng) -> Option<Vec<u8>> {
     None
 }
 
+/// Byte range of the transition-time array of the data block a reader uses (the second block of
+/// a version 2+ file, the only block of a version 1 file).
+fn time_array_range(bytes: &[u8]) -> Option<(usize, usize)> {
+    let cnt = |at: usize, k: usize| -> Option<usize> {
+        let b = bytes.get(at + 20 + 4 * k..at + 24 + 4 * k)?;
+        Some(u32::from_be_bytes([b[0], b[1], b[2], b[3]]) as usize)
+    };
+    // header counts in file order: isut, isstd, leap, time, type, char
+    let (isut, isstd, leap, time, typ, chr) = (cnt(0, 0)?, cnt(0, 1)?, cnt(0, 2)?, cnt(0, 3)?, cnt(0, 4)?, cnt(0, 5)?);
+    if *bytes.get(4)? < b'2' {
+        return Some((44, 44 + time * 4));
+    }
+    let second = 44 + time * 5 + typ * 6 + chr + leap * 8 + isstd + isut;
+    let time2 = cnt(second, 3)?;
+    let lo = second + 44;
+    let hi = lo + time2 * 8;
+    if hi > bytes.len() {
+        return None;
+    }
+    Some((lo, hi))
+}
+
 /// A well-formed file of the same length whose 32-bit big-endian words have the same sum (and,
 /// for the second kind, the same XOR) as `bytes`, but which answers differently somewhere: what a
 /// cache keyed by length and a cheap checksum cannot tell apart.
@@ -677,9 +699,19 @@ pub fn checksum_sibling(bytes: &[u8], rng: &mut Rng) -> Option<Vec<u8>> {
     let probe: Vec<i64> = z.trans.iter().flat_map(|(t, _)| [*t, *t + 1]).chain([0, 1_700_000_000, 2_000_000_000, 4_000_000_000]).collect();
     let answers = |zz: &RefZone| -> Vec<Answer> { probe.iter().map(|t| zz.offset_at(*t)).collect() };
     let base_answers = answers(&z);
+    // Only words lying wholly inside the transition-time array of the block the reader uses are
+    // changed: every other byte (leap-second records, indicator arrays, abbreviations, type
+    // records, the other block) stays as the well-formed original had it, so that a reader which
+    // validates those parts strictly (RFC 8536 3.2) accepts the sibling exactly when it accepts
+    // the original.
+    let (lo, hi) = time_array_range(bytes)?;
+    let allowed: Vec<usize> = (11..words).filter(|k| 4 * k >= lo && 4 * k + 4 <= hi).collect();
+    if allowed.len() < 2 {
+        return None;
+    }
     for _ in 0..400 {
-        let i = 11 + rng.usize(words - 11);
-        let j = 11 + rng.usize(words - 11);
+        let i = *rng.pick(&allowed);
+        let j = *rng.pick(&allowed);
         if i == j {
             continue;
         }
